@@ -27,7 +27,7 @@ PLAN = dict(
           "clauses or free mixtures of their fragments, each through EntryType::from and through a parsed "
           "line, expectation from an oracle that refuses every name on which two readings of the rule differ; "
           "(c) an alias workload for known finding K2. Non-trivial = at least two files whose lines are "
-          "interleaved and at least one must-ignore line; distinct = distinct texts by 64-bit fingerprint. Later additions: upper- and mixed-case hex hashes, the text of a preceding line's hash again. Round 7: names on which the readings of the rule differ (behind directories, trailing or doubled separators, dot components) under the consistency law only - a line is filed where EntryType::from puts the name; Size lines cut short after each field. Round 8: sizes reduced to a sign or with signs in the wrong place ('+', '++5', '+-5', '5+')."),
+          "interleaved and at least one must-ignore line; distinct = distinct texts by 64-bit fingerprint. Later additions: upper- and mixed-case hex hashes, the text of a preceding line's hash again. Round 7: names on which the readings of the rule differ (behind directories, trailing or doubled separators, dot components) under the consistency law only - a line is filed where EntryType::from puts the name; Size lines cut short after each field. Round 8: sizes reduced to a sign or with signs in the wrong place ('+', '++5', '+-5', '5+'). Round 9: byte-level near misses of the algorithm keywords (single-bit flips that are not case changes, e.g. a digit turned into the control byte that c|0x20 folds back) as unknown algorithms."),
     assumptions=[
         "the harness's model of 'well-formed' and 'must-ignore' lines is what the statement means; near-miss lines are not generated",
         "known finding K2 (path-alias-merge) is recognised only in the alias workload, only for two names that differ as bytes and are equal as std::path::Path, and only when the observation is exactly the second name's lines appended to the first name's entry",
